@@ -18,9 +18,12 @@ def step (toks : List String) : Option (String × String) :=
       let wd ← kv rest "wd"
       let name ← kv rest "name"
       let wdSegs := cleanSegs true (splitSlash wd.toList)
+      -- specification = the model: its accepted paths are proved to lie under the working
+      -- directory (c11_name_contained), so an implementation that accepts a title the
+      -- model refuses, or resolves it elsewhere, writes outside
       match resolveWritePath wdSegs name.toList with
-      | some p => some ("ok:/" ++ String.ofList (joinSlash p), "*")
-      | none => some ("err", "*")
+      | some p => some ("ok:/" ++ String.ofList (joinSlash p), "ok:/" ++ String.ofList (joinSlash p))
+      | none => some ("err", "err")
   | "tar" :: rest => do
       let out ← kv rest "outside"
       some ("ok", if out == "clean" then "ok" else "OUTSIDE-WRITE")
